@@ -3,6 +3,7 @@ package c06
 import (
 	"bytes"
 	"fmt"
+	"iter"
 	"math"
 	"sort"
 	"strings"
@@ -310,6 +311,67 @@ func (h *harness) predeclared() starlark.StringDict {
 				return pushLoop2(th, args[1], starlark.Entries(x))
 			}
 			return nil, fmt.Errorf("not an iterable mapping")
+		}),
+		// Two pull cursors over one collection, stopped first-in-first-out: the
+		// callback runs for the elements the second cursor still yields after the
+		// first one has been stopped (the collection is still being iterated).
+		"go_pull_fifo": b("go_pull_fifo", func(th *starlark.Thread, args starlark.Tuple) (starlark.Value, error) {
+			x, ok := args[0].(starlark.Iterable)
+			if !ok {
+				return nil, fmt.Errorf("not iterable")
+			}
+			next1, stop1 := iter.Pull(starlark.Elements(x))
+			next2, stop2 := iter.Pull(starlark.Elements(x))
+			defer stop2()
+			defer stop1()
+			next1()
+			stop1()
+			n := 0
+			for {
+				e, ok := next2()
+				if !ok {
+					break
+				}
+				r, err := starlark.Call(th, args[1], starlark.Tuple{e}, nil)
+				if err != nil {
+					return nil, err
+				}
+				n++
+				if r == starlark.False {
+					break
+				}
+			}
+			return starlark.MakeInt(n), nil
+		}),
+		// An Iterate() obtained inside the body of a push loop and used after
+		// that loop has ended.
+		"go_iterate_in_push": b("go_iterate_in_push", func(th *starlark.Thread, args starlark.Tuple) (starlark.Value, error) {
+			x, ok := args[0].(starlark.Iterable)
+			if !ok {
+				return nil, fmt.Errorf("not iterable")
+			}
+			var it starlark.Iterator
+			for range starlark.Elements(x) {
+				it = x.Iterate()
+				break
+			}
+			if it == nil {
+				it = x.Iterate()
+			}
+			defer it.Done()
+			n := 0
+			var e starlark.Value
+			for it.Next(&e) {
+				r, err := starlark.Call(th, args[1], starlark.Tuple{e}, nil)
+				if err != nil {
+					return nil, err
+				}
+				n++
+				if r == starlark.False {
+					break
+				}
+			}
+			return starlark.MakeInt(n), nil
 		}),
 		"json":   json.Module,
 		"math":   stdmath.Module,
